@@ -1350,6 +1350,22 @@ def c09_codec_cases(ctx):
         for doc, how in mutations(ctx, fmt, valid[: 300 if ctx.quick else 3000], rnd, 8):
             if how == "subst":
                 cases.append(case("C09", "parse", fmt, doc=doc, entry="parse", origin="mutation subst"))
+        # every proper prefix of valid documents (the input ends there): a parser that reports success has delivered a
+        # well-formed stream - announced lengths included
+        # (first of all: containers with announced counts nested in containers with announced counts that expect more)
+        nested = dict(
+            ubjson=[b"[#U\x02{#U\x01U\x01ai\x05{#U\x01U\x01bi\x06", b"[#U\x02[#U\x01i\x01[#U\x01i\x02", b"{#U\x02U\x01a{#U\x01U\x01bi\x01U\x01ci\x02",
+                    b"{#U\x02U\x01a[#U\x01i\x01U\x01c[#U\x00", b"[#U\x03{#U\x00{#U\x01U\x00Z[$i#U\x01\x07", b"[[#U\x02{#U\x01U\x01aTF]",
+                    b"[#U\x02{$i#U\x01U\x01a\x05{$Z#U\x01U\x01b", b"[#U\x02[$T#U\x02[$d#U\x01\x3f\x80\x00\x00"],
+            cborl=[b"\x82\xa1\x61\x61\x05\xa1\x61\x62\x06", b"\x82\x81\x01\x81\x02", b"\xa2\x61\x61\xa1\x61\x62\x01\x61\x63\x02", b"\x83\xa0\x80\x9f\xff",
+                   b"\x82\x41\x07\x42\x08\x09"],
+            json=[b'[{"a":5},{"b":6}]', b'{"a":{"b":1},"c":[2]}', b'[[1],[2],[]]'])[fmt]
+        for n, doc in enumerate([list(d) for d in nested] + valid[: 400 if ctx.quick else 4000]):
+            if len(doc) > 24:
+                continue
+            for cut in range(1, len(doc)):
+                e = ("parse", "reader", "decbytes", "write")[(n + cut) % 4]
+                cases.append(case("C09", "parse", fmt, doc=doc[:cut], entry=e, origin="prefix of a valid document", **sched_variants(ctx, doc[:cut], e, rnd)))
     allshapes = gen_events(ctx)
     shapes = [s for s in allshapes if has_ext(s)]
     for shape in shapes:
